@@ -1,6 +1,6 @@
 SPECIFICATION Spec
 CONSTANTS
-  Family = "dispatch"
+  Family = "partialstart"
   MaxEm = 3
   EvPerEm = 2
   FixD3 = TRUE
@@ -15,6 +15,7 @@ INVARIANT C04_InQueueOrder
 INVARIANT C05_NoCallAfterReturn
 INVARIANT C13_RegistryIsMap
 INVARIANT C13_NoStaleHandlers
+INVARIANT C13_StartRetrySucceeds
 INVARIANT C13_EveryScheduledWatchRuns
 INVARIANT C06_AllExitedAfterJoin
 PROPERTY C04_ExactlyOnce
